@@ -158,7 +158,7 @@ func (c *c27Case) dialClientStream(id int, outcome string) (net.Conn, error) {
 
 func TestC27(t *testing.T) {
 	rec := ev.New(t, "C27")
-	rec.Rule("rapid-generated route tables for a hostname H: each of the 3 slots is empty, a KV error, or a route through the local node (client dial outcome: ok, no-direct [plain, wrapped, client-not-connected], dial error, connection closed before the link frame) or through a remote node (chord dial error / no-direct; scripted status OK, NO_DIRECT, UNKNOWN_ERROR, unknown code, garbage, EOF; or a second real Server whose handleProxyConn dials the client with outcome ok / no-direct / error, or which is not the route's tunnel destination); a decoy hostname with its own client is always present; fresh Server per case. Non-trivial: at least two routes with different outcomes. Distinct = the slot table.")
+	rec.Rule("rapid-generated route tables for a hostname H: each of the 3 slots is empty, a KV error, or a route through the local node (client dial outcome: ok, no-direct [plain, wrapped, client-not-connected], dial error, connection closed before the link frame) or through a remote node (chord dial error / no-direct; scripted status OK, NO_DIRECT, UNKNOWN_ERROR, unknown code, garbage, EOF; or a second real Server whose handleProxyConn dials the client with outcome ok / no-direct / error, or which is not the route's tunnel destination); a decoy hostname with its own client is always present; fresh Server per case, on which 1..3 requests for H are made with generated contexts: live, cancelled before the call, or cancelled while the route lookup is in flight (the KV fake holds the lookup until the request is abandoned, then answers according to the context it was given); every live request is judged against the hostname's routes, whatever earlier abandoned requests did. Non-trivial: at least two routes with different outcomes. Distinct = (slot table, request contexts so far).")
 	rec.Assume("order among several local (or several remote) routes is unspecified; the oracle only demands all local attempts before any remote attempt",
 		"routes exist but none is reachable: not-connected is demanded when at least one attempt ended in no-direct (DESIGN §3 C27); when every attempt failed with another error either not-connected or not-found is accepted (class all-generic-errors, reported)",
 		"waiting for the link frame on the harness end uses a 60 s budget; expiry is counted inconclusive")
@@ -328,243 +328,356 @@ func TestC27(t *testing.T) {
 		}
 
 		link := &protocol.Link{Alpn: protocol.Link_HTTP, Hostname: host, Remote: fmt.Sprintf("203.0.113.%d:5555", caseNo%250)}
-		conn, err := fx.srv.DialClient(context.Background(), link)
-		cs.mu.Lock()
-		dialLog := append([]string{}, cs.dialLog...)
-		cs.mu.Unlock()
-
-		// ---- oracle
-		doc := map[string]any{"slots": slots, "dial_log": dialLog, "error": fmt.Sprint(err), "got_conn": conn != nil}
-		cats := map[string]bool{}
-		outs := map[string]bool{}
-		var localOK, remoteOK, anyNoDirect bool
-		nLocal, nRemote := 0, 0
-		for _, r := range routes {
-			cats[r.cat] = true
-			outs[fmt.Sprintf("%v/%s", r.local, r.outcome)] = true
-			if r.local {
-				nLocal++
+		// ---- dial sequence on this one Server: live requests are judged, abandoned
+		// requests (context cancelled before the call, or while the route lookup is
+		// in flight) only happen
+		nDials := rapid.IntRange(1, 3).Draw(t, "dials")
+		modes := make([]string, nDials)
+		for i := range modes {
+			modes[i] = rapid.SampledFrom([]string{"live", "live", "cancelled-before", "cancelled-during-lookup"}).Draw(t, fmt.Sprintf("ctx%d", i+1))
+		}
+		modes[nDials-1] = "live"
+		type lookupGate struct {
+			entered, proceed chan struct{}
+			once             sync.Once
+		}
+		var gateMu sync.Mutex
+		var gate *lookupGate
+		var lookupTooSlow bool
+		fx.kv.setGetCtx(func(ctx context.Context, key []byte) ([]byte, error, bool) {
+			if ctx.Err() != nil { // a lookup RPC with a dead context fails
+				return nil, ctx.Err(), true
+			}
+			gateMu.Lock()
+			g := gate
+			gateMu.Unlock()
+			if g != nil && strings.HasPrefix(string(key), "/tunnel/bundle/"+host+"/") {
+				g.once.Do(func() { close(g.entered) })
+				<-g.proceed
+				if err := ctx.Err(); err != nil {
+					if errors.Is(err, context.DeadlineExceeded) {
+						// the loader's own 3 s lookup budget ran out while the harness was
+						// descheduled: says nothing about the property
+						gateMu.Lock()
+						lookupTooSlow = true
+						gateMu.Unlock()
+					}
+					return nil, err, true
+				}
+			}
+			return nil, nil, false
+		})
+		abandoned := func(mode string) bool {
+			reqCtx, cancel := context.WithCancel(context.Background())
+			defer cancel()
+			var g *lookupGate
+			if mode == "cancelled-before" {
+				cancel()
 			} else {
-				nRemote++
+				g = &lookupGate{entered: make(chan struct{}), proceed: make(chan struct{})}
+				gateMu.Lock()
+				gate = g
+				gateMu.Unlock()
 			}
-			if r.cat == catOK && r.local {
-				localOK = true
-			}
-			if r.cat == catOK && !r.local {
-				remoteOK = true
-			}
-			if r.cat == catNoDirect {
-				anyNoDirect = true
-			}
-		}
-		nEmpty, nKVErr := 0, 0
-		for _, s := range slots {
-			if s.State == "empty" {
-				nEmpty++
-			}
-			if s.State == "kv-error" {
-				nKVErr++
-			}
-		}
-		expect := ""
-		switch {
-		case localOK:
-			expect = "conn-local"
-		case remoteOK:
-			expect = "conn-remote"
-		case len(routes) == 0 && nEmpty == 3:
-			expect = "not-found"
-		case len(routes) == 0:
-			expect = "lookup-error"
-		case anyNoDirect:
-			expect = "not-connected"
-		default:
-			expect = "all-generic-errors"
-		}
-		doc["expect"] = expect
-		key := fmt.Sprintf("%v", slots)
-		rec.Case(len(outs) >= 2, key, func() any { return doc }, "expect:"+expect, fmt.Sprintf("routes:%d", len(routes)), fmt.Sprintf("local:%d/remote:%d", nLocal, nRemote))
-		fail := func(sig, format string, args ...any) {
-			rec.Fail(t, sig, doc, format, args...)
-		}
-
-		// whatever happened: only H's routes may have been dialled, locals before remotes
-		allowedDirect, allowedProxy := map[string]bool{}, map[string]bool{}
-		for _, r := range routes {
-			if r.local {
-				allowedDirect[fmt.Sprintf("direct:%d:%s", r.id, protocol.Stream_DIRECT)] = true
-			} else {
-				allowedProxy[fmt.Sprintf("proxy:%s:%s", r.route.GetChordDestination().GetAddress(), protocol.Stream_PROXY)] = true
-				if r.outcome == "peer-client-ok" || r.outcome == "peer-client-no-direct" || r.outcome == "peer-client-error" {
-					allowedDirect[fmt.Sprintf("peer-direct:%d:%s", r.id, protocol.Stream_DIRECT)] = true
+			done := make(chan struct{})
+			go func() {
+				defer close(done)
+				defer func() { recover() }()
+				if c, _ := fx.srv.DialClient(reqCtx, link); c != nil {
+					c.Close()
 				}
+			}()
+			ok := true
+			if g != nil {
+				select {
+				case <-g.entered: // the route lookup is in flight: abandon the request now
+				case <-done: // answered from the cache, no lookup
+				case <-time.After(60 * time.Second):
+					ok = false
+				}
+				cancel()
+				close(g.proceed)
+				gateMu.Lock()
+				gate = nil
+				gateMu.Unlock()
 			}
+			select {
+			case <-done:
+			case <-time.After(60 * time.Second):
+				ok = false
+			}
+			return ok
 		}
-		seenProxy := false
-		for _, d := range dialLog {
-			switch {
-			case strings.HasPrefix(d, "direct:"):
-				if !allowedDirect[d] {
-					fail("dialled-client-not-in-routes", "DialClient(%s) dialled %s which is not a local route of the hostname", host, d)
-				}
-				if seenProxy {
-					fail("remote-route-tried-before-local", "DialClient(%s) tried a remote route before local route %s: %v", host, d, dialLog)
-				}
-			case strings.HasPrefix(d, "proxy:"):
-				seenProxy = true
-				if !allowedProxy[d] {
-					fail("dialled-node-not-in-routes", "DialClient(%s) opened %s which is not a remote route of the hostname", host, d)
-				}
-			case strings.HasPrefix(d, "peer-direct:"):
-				if !allowedDirect[d] {
-					fail("remote-node-dialled-client-for-foreign-route", "the remote node dialled %s although it is not the tunnel destination of a route naming that client", d)
-				}
-			}
-		}
-
-		switch expect {
-		case "conn-local", "conn-remote":
-			if err != nil || conn == nil {
-				fail("reachable-client-not-connected", "DialClient(%s) failed with %v although a route is reachable (%s)", host, err, expect)
-			}
-			var hit *rt
+		judgeLive := func(di int) {
 			cs.mu.Lock()
+			cs.dialLog = nil
+			cs.ends = map[int]*c27End{}
+			cs.mu.Unlock()
+			conn, err := fx.srv.DialClient(context.Background(), link)
+			cs.mu.Lock()
+			dialLog := append([]string{}, cs.dialLog...)
+			cs.mu.Unlock()
+
+			// ---- oracle
+			doc := map[string]any{"slots": slots, "dial_log": dialLog, "error": fmt.Sprint(err), "got_conn": conn != nil, "request_contexts": modes[:di+1]}
+			cats := map[string]bool{}
+			outs := map[string]bool{}
+			var localOK, remoteOK, anyNoDirect bool
+			nLocal, nRemote := 0, 0
 			for _, r := range routes {
-				if e := cs.ends[r.id]; e != nil && !strings.HasPrefix(r.outcome, "peer-") && e.dialConn == conn {
-					hit = r
+				cats[r.cat] = true
+				outs[fmt.Sprintf("%v/%s", r.local, r.outcome)] = true
+				if r.local {
+					nLocal++
+				} else {
+					nRemote++
+				}
+				if r.cat == catOK && r.local {
+					localOK = true
+				}
+				if r.cat == catOK && !r.local {
+					remoteOK = true
+				}
+				if r.cat == catNoDirect {
+					anyNoDirect = true
 				}
 			}
-			cs.mu.Unlock()
-			if hit == nil && expect == "conn-remote" {
-				// through the real peer the returned conn is the proxy stream; the
-				// client end that received the link identifies the route
+			nEmpty, nKVErr := 0, 0
+			for _, s := range slots {
+				if s.State == "empty" {
+					nEmpty++
+				}
+				if s.State == "kv-error" {
+					nKVErr++
+				}
+			}
+			expect := ""
+			switch {
+			case localOK:
+				expect = "conn-local"
+			case remoteOK:
+				expect = "conn-remote"
+			case len(routes) == 0 && nEmpty == 3:
+				expect = "not-found"
+			case len(routes) == 0:
+				expect = "lookup-error"
+			case anyNoDirect:
+				expect = "not-connected"
+			default:
+				expect = "all-generic-errors"
+			}
+			doc["expect"] = expect
+			key := fmt.Sprintf("%v|%v", slots, modes[:di+1])
+			earlier := "first-request"
+			for _, m := range modes[:di] {
+				if m != "live" {
+					earlier = "after-abandoned-request"
+				}
+			}
+			if earlier == "first-request" && di > 0 {
+				earlier = "after-live-request"
+			}
+			rec.Case(len(outs) >= 2, key, func() any { return doc }, "expect:"+expect, "history:"+earlier, fmt.Sprintf("routes:%d", len(routes)), fmt.Sprintf("local:%d/remote:%d", nLocal, nRemote))
+			fail := func(sig, format string, args ...any) {
+				rec.Fail(t, sig, doc, format, args...)
+			}
+
+			// whatever happened: only H's routes may have been dialled, locals before remotes
+			allowedDirect, allowedProxy := map[string]bool{}, map[string]bool{}
+			for _, r := range routes {
+				if r.local {
+					allowedDirect[fmt.Sprintf("direct:%d:%s", r.id, protocol.Stream_DIRECT)] = true
+				} else {
+					allowedProxy[fmt.Sprintf("proxy:%s:%s", r.route.GetChordDestination().GetAddress(), protocol.Stream_PROXY)] = true
+					if r.outcome == "peer-client-ok" || r.outcome == "peer-client-no-direct" || r.outcome == "peer-client-error" {
+						allowedDirect[fmt.Sprintf("peer-direct:%d:%s", r.id, protocol.Stream_DIRECT)] = true
+					}
+				}
+			}
+			seenProxy := false
+			for _, d := range dialLog {
+				switch {
+				case strings.HasPrefix(d, "direct:"):
+					if !allowedDirect[d] {
+						fail("dialled-client-not-in-routes", "DialClient(%s) dialled %s which is not a local route of the hostname", host, d)
+					}
+					if seenProxy {
+						fail("remote-route-tried-before-local", "DialClient(%s) tried a remote route before local route %s: %v", host, d, dialLog)
+					}
+				case strings.HasPrefix(d, "proxy:"):
+					seenProxy = true
+					if !allowedProxy[d] {
+						fail("dialled-node-not-in-routes", "DialClient(%s) opened %s which is not a remote route of the hostname", host, d)
+					}
+				case strings.HasPrefix(d, "peer-direct:"):
+					if !allowedDirect[d] {
+						fail("remote-node-dialled-client-for-foreign-route", "the remote node dialled %s although it is not the tunnel destination of a route naming that client", d)
+					}
+				}
+			}
+
+			switch expect {
+			case "conn-local", "conn-remote":
+				if err != nil || conn == nil {
+					fail("reachable-client-not-connected", "DialClient(%s) failed with %v although a route is reachable (%s)", host, err, expect)
+				}
+				var hit *rt
+				cs.mu.Lock()
 				for _, r := range routes {
-					cs.mu.Lock()
-					e := cs.ends[r.id]
-					cs.mu.Unlock()
-					if e != nil && strings.HasPrefix(r.outcome, "peer-") {
+					if e := cs.ends[r.id]; e != nil && !strings.HasPrefix(r.outcome, "peer-") && e.dialConn == conn {
 						hit = r
 					}
 				}
-			}
-			if hit == nil {
-				fail("returned-conn-not-to-a-route-client", "DialClient(%s) returned a connection that does not belong to any reachable route of the hostname", host)
-			}
-			if hit.cat != catOK {
-				fail("returned-conn-not-to-a-route-client", "DialClient(%s) returned the connection of route %d whose outcome is %s", host, hit.slot, hit.outcome)
-			}
-			if expect == "conn-local" && !hit.local {
-				fail("remote-route-used-although-local-reachable", "DialClient(%s) used remote route %d although a local route is reachable", host, hit.slot)
-			}
-			if expect == "conn-remote" {
-				for _, r := range routes {
-					if !r.local {
-						continue
-					}
-					want := fmt.Sprintf("direct:%d:%s", r.id, protocol.Stream_DIRECT)
-					found := false
-					for _, d := range dialLog {
-						found = found || d == want
-					}
-					if !found {
-						fail("remote-route-tried-before-local", "DialClient(%s) used a remote route without trying local route %d: %v", host, r.slot, dialLog)
+				cs.mu.Unlock()
+				if hit == nil && expect == "conn-remote" {
+					// through the real peer the returned conn is the proxy stream; the
+					// client end that received the link identifies the route
+					for _, r := range routes {
+						cs.mu.Lock()
+						e := cs.ends[r.id]
+						cs.mu.Unlock()
+						if e != nil && strings.HasPrefix(r.outcome, "peer-") {
+							hit = r
+						}
 					}
 				}
-			}
-			if expect == "conn-local" && seenProxy {
-				fail("remote-route-tried-before-local", "DialClient(%s) opened a proxy stream although a local route is reachable: %v", host, dialLog)
-			}
-			cs.mu.Lock()
-			e := cs.ends[hit.id]
-			cs.mu.Unlock()
-			select {
-			case got := <-e.link:
-				if got.GetHostname() != host || got.GetAlpn() != link.GetAlpn() || got.GetRemote() != link.GetRemote() {
-					fail("link-not-carried-to-client", "client of route %d received link %v, want %v", hit.slot, got, link)
+				if hit == nil {
+					fail("returned-conn-not-to-a-route-client", "DialClient(%s) returned a connection that does not belong to any reachable route of the hostname", host)
 				}
-			case e2 := <-e.echoDone:
-				fail("link-not-carried-to-client", "client of route %d did not receive the link frame: %v", hit.slot, e2)
-			case <-time.After(60 * time.Second):
-				rec.Inconclusive("link frame not seen within 60s")
-				return
-			}
-			if !hit.local && !strings.HasPrefix(hit.outcome, "peer-") {
+				if hit.cat != catOK {
+					fail("returned-conn-not-to-a-route-client", "DialClient(%s) returned the connection of route %d whose outcome is %s", host, hit.slot, hit.outcome)
+				}
+				if expect == "conn-local" && !hit.local {
+					fail("remote-route-used-although-local-reachable", "DialClient(%s) used remote route %d although a local route is reachable", host, hit.slot)
+				}
+				if expect == "conn-remote" {
+					for _, r := range routes {
+						if !r.local {
+							continue
+						}
+						want := fmt.Sprintf("direct:%d:%s", r.id, protocol.Stream_DIRECT)
+						found := false
+						for _, d := range dialLog {
+							found = found || d == want
+						}
+						if !found {
+							fail("remote-route-tried-before-local", "DialClient(%s) used a remote route without trying local route %d: %v", host, r.slot, dialLog)
+						}
+					}
+				}
+				if expect == "conn-local" && seenProxy {
+					fail("remote-route-tried-before-local", "DialClient(%s) opened a proxy stream although a local route is reachable: %v", host, dialLog)
+				}
+				cs.mu.Lock()
+				e := cs.ends[hit.id]
+				cs.mu.Unlock()
 				select {
-				case r := <-e.route:
-					if r.GetHostname() != host || !nodeEq(r.GetClientDestination(), hit.route.GetClientDestination()) || !nodeEq(r.GetTunnelDestination(), hit.route.GetTunnelDestination()) {
-						fail("proxy-negotiation-names-other-route", "remote node received route %v, want %v", r, hit.route)
+				case got := <-e.link:
+					if got.GetHostname() != host || got.GetAlpn() != link.GetAlpn() || got.GetRemote() != link.GetRemote() {
+						fail("link-not-carried-to-client", "client of route %d received link %v, want %v", hit.slot, got, link)
 					}
-				default:
-					fail("proxy-negotiation-names-other-route", "remote node never received the route frame")
-				}
-			}
-			// data flows both ways on the returned connection
-			conn.SetDeadline(time.Now().Add(60 * time.Second))
-			if _, werr := conn.Write([]byte("abc")); werr != nil {
-				fail("returned-conn-unusable", "write on returned connection: %v", werr)
-			}
-			buf := make([]byte, 3)
-			if _, rerr := io.ReadFull(conn, buf); rerr != nil {
-				if errors.Is(rerr, context.DeadlineExceeded) || strings.Contains(rerr.Error(), "timeout") {
-					rec.Inconclusive("echo not seen within 60s")
+				case e2 := <-e.echoDone:
+					fail("link-not-carried-to-client", "client of route %d did not receive the link frame: %v", hit.slot, e2)
+				case <-time.After(60 * time.Second):
+					rec.Inconclusive("link frame not seen within 60s")
 					return
 				}
-				fail("returned-conn-unusable", "read on returned connection: %v", rerr)
-			}
-			if string(buf) != "ABC" {
-				fail("returned-conn-unusable", "echo through returned connection = %q", buf)
-			}
-			// no further attempt after success
-			cs.mu.Lock()
-			n2 := len(cs.dialLog)
-			cs.mu.Unlock()
-			if n2 != len(dialLog) {
-				fail("dial-after-success", "more dial attempts after DialClient returned a connection")
-			}
-		default:
-			if err == nil || conn != nil {
-				fail("connection-without-reachable-route", "DialClient(%s) returned a connection although no route is reachable (%s)", host, expect)
-			}
-			switch expect {
-			case "not-found":
-				if !errors.Is(err, tun.ErrDestinationNotFound) {
-					fail("no-routes-not-reported-not-found", "hostname without routes: got %v, want %v", err, tun.ErrDestinationNotFound)
-				}
-				if len(dialLog) != 0 {
-					fail("dialled-client-not-in-routes", "dial attempts for a hostname without routes: %v", dialLog)
-				}
-			case "lookup-error":
-				if len(dialLog) != 0 {
-					fail("dialled-client-not-in-routes", "dial attempts for a hostname without decodable routes: %v", dialLog)
-				}
-			case "not-connected":
-				if !errors.Is(err, tun.ErrTunnelClientNotConnected) {
-					fail("unreachable-clients-not-reported-not-connected", "routes exist, none reachable, at least one no-direct: got %v, want %v", err, tun.ErrTunnelClientNotConnected)
-				}
-			case "all-generic-errors":
-				if !errors.Is(err, tun.ErrTunnelClientNotConnected) && !errors.Is(err, tun.ErrDestinationNotFound) {
-					fail("unreachable-clients-unclassified-error", "routes exist, none reachable: got %v", err)
-				}
-				if errors.Is(err, tun.ErrDestinationNotFound) {
-					rec.Add("all_generic_errors_reported_not_found", 1)
-				}
-			}
-			if expect == "not-connected" || expect == "all-generic-errors" {
-				// every route must have been attempted
-				for _, r := range routes {
-					want := fmt.Sprintf("direct:%d:%s", r.id, protocol.Stream_DIRECT)
-					if !r.local {
-						want = fmt.Sprintf("proxy:%s:%s", r.route.GetChordDestination().GetAddress(), protocol.Stream_PROXY)
-					}
-					found := false
-					for _, d := range dialLog {
-						found = found || d == want
-					}
-					if !found {
-						fail("route-not-attempted", "route %d (%s) was never attempted before giving up: %v", r.slot, r.outcome, dialLog)
+				if !hit.local && !strings.HasPrefix(hit.outcome, "peer-") {
+					select {
+					case r := <-e.route:
+						if r.GetHostname() != host || !nodeEq(r.GetClientDestination(), hit.route.GetClientDestination()) || !nodeEq(r.GetTunnelDestination(), hit.route.GetTunnelDestination()) {
+							fail("proxy-negotiation-names-other-route", "remote node received route %v, want %v", r, hit.route)
+						}
+					default:
+						fail("proxy-negotiation-names-other-route", "remote node never received the route frame")
 					}
 				}
+				// data flows both ways on the returned connection
+				conn.SetDeadline(time.Now().Add(60 * time.Second))
+				if _, werr := conn.Write([]byte("abc")); werr != nil {
+					fail("returned-conn-unusable", "write on returned connection: %v", werr)
+				}
+				buf := make([]byte, 3)
+				if _, rerr := io.ReadFull(conn, buf); rerr != nil {
+					if errors.Is(rerr, context.DeadlineExceeded) || strings.Contains(rerr.Error(), "timeout") {
+						rec.Inconclusive("echo not seen within 60s")
+						return
+					}
+					fail("returned-conn-unusable", "read on returned connection: %v", rerr)
+				}
+				if string(buf) != "ABC" {
+					fail("returned-conn-unusable", "echo through returned connection = %q", buf)
+				}
+				// no further attempt after success
+				cs.mu.Lock()
+				n2 := len(cs.dialLog)
+				cs.mu.Unlock()
+				if n2 != len(dialLog) {
+					fail("dial-after-success", "more dial attempts after DialClient returned a connection")
+				}
+			default:
+				if err == nil || conn != nil {
+					fail("connection-without-reachable-route", "DialClient(%s) returned a connection although no route is reachable (%s)", host, expect)
+				}
+				switch expect {
+				case "not-found":
+					if !errors.Is(err, tun.ErrDestinationNotFound) {
+						fail("no-routes-not-reported-not-found", "hostname without routes: got %v, want %v", err, tun.ErrDestinationNotFound)
+					}
+					if len(dialLog) != 0 {
+						fail("dialled-client-not-in-routes", "dial attempts for a hostname without routes: %v", dialLog)
+					}
+				case "lookup-error":
+					if len(dialLog) != 0 {
+						fail("dialled-client-not-in-routes", "dial attempts for a hostname without decodable routes: %v", dialLog)
+					}
+				case "not-connected":
+					if !errors.Is(err, tun.ErrTunnelClientNotConnected) {
+						fail("unreachable-clients-not-reported-not-connected", "routes exist, none reachable, at least one no-direct: got %v, want %v", err, tun.ErrTunnelClientNotConnected)
+					}
+				case "all-generic-errors":
+					if !errors.Is(err, tun.ErrTunnelClientNotConnected) && !errors.Is(err, tun.ErrDestinationNotFound) {
+						fail("unreachable-clients-unclassified-error", "routes exist, none reachable: got %v", err)
+					}
+					if errors.Is(err, tun.ErrDestinationNotFound) {
+						rec.Add("all_generic_errors_reported_not_found", 1)
+					}
+				}
+				if expect == "not-connected" || expect == "all-generic-errors" {
+					// every route must have been attempted
+					for _, r := range routes {
+						want := fmt.Sprintf("direct:%d:%s", r.id, protocol.Stream_DIRECT)
+						if !r.local {
+							want = fmt.Sprintf("proxy:%s:%s", r.route.GetChordDestination().GetAddress(), protocol.Stream_PROXY)
+						}
+						found := false
+						for _, d := range dialLog {
+							found = found || d == want
+						}
+						if !found {
+							fail("route-not-attempted", "route %d (%s) was never attempted before giving up: %v", r.slot, r.outcome, dialLog)
+						}
+					}
+				}
 			}
+		}
+		for di, mode := range modes {
+			if mode != "live" {
+				if !abandoned(mode) {
+					rec.Inconclusive("abandoned request did not finish within 60s")
+					return
+				}
+				gateMu.Lock()
+				slow := lookupTooSlow
+				gateMu.Unlock()
+				if slow {
+					rec.Inconclusive("route lookup budget (3s) expired while the harness was descheduled")
+					return
+				}
+				rec.Add("abandoned_dials:"+mode, 1)
+				continue
+			}
+			judgeLive(di)
 		}
 	})
 }
